@@ -54,6 +54,13 @@ struct WebSocketClientInner {
     /// `futures_channel` sender; that copy lives in `crate::notify_slot`,
     /// where the shared rules are unit-tested. Keep the two in step.
     notify_tx: StdMutex<Option<mpsc::UnboundedSender<Message>>>,
+    /// Set by the response loop when it fails the connection; request writes
+    /// are refused from then on.
+    failed_flag: std::sync::atomic::AtomicBool,
+    /// Wakes a request write stalled on the socket (peer not reading) when the
+    /// connection is failed, so `fail_all_pending` never waits behind it for
+    /// the writer mutex.
+    failed: tokio::sync::Notify,
 }
 
 enum PendingDispatch {
@@ -159,6 +166,8 @@ impl WebSocketClient {
             pending: StdMutex::new(HashMap::new()),
             next_id: AtomicU64::new(1),
             notify_tx: StdMutex::new(None),
+            failed_flag: std::sync::atomic::AtomicBool::new(false),
+            failed: tokio::sync::Notify::new(),
         });
 
         spawn_response_loop(reader, Arc::downgrade(&inner));
@@ -604,11 +613,22 @@ impl WebSocketClient {
         // learns why.
         self.inner.limits.check_outbound(bytes.len())?;
         let mut writer = self.inner.writer.lock().await;
-        writer
-            .send(WsMessage::Binary(bytes))
-            .await
-            .map_err(websocket_transport_error)?;
-        Ok(())
+        // Register for the failure signal before testing the flag, so a
+        // failure landing in between is not missed.
+        let failed = self.inner.failed.notified();
+        tokio::pin!(failed);
+        failed.as_mut().enable();
+        if self.inner.failed_flag.load(Ordering::Acquire) {
+            return Err(websocket_closed_error());
+        }
+        tokio::select! {
+            biased;
+            // The response loop declared the connection dead while this send
+            // was stalled on the socket: give up instead of holding the writer
+            // mutex for as long as the peer keeps the connection open.
+            _ = &mut failed => Err(websocket_closed_error()),
+            sent = writer.send(WsMessage::Binary(bytes)) => sent.map_err(websocket_transport_error),
+        }
     }
 
     fn validate_response(expected_id: u64, resp: Message) -> Result<Message, RepeError> {
@@ -848,7 +868,12 @@ async fn fail_all_pending(inner: &std::sync::Weak<WebSocketClientInner>, err: Re
     // The subscriber should not wait on it to learn the connection is gone.
     take_notify_sender(&inner_ref);
 
-    let _ = close_writer(&inner_ref).await;
+    // Refuse further request writes and wake one that is stalled on the socket
+    // (peer not reading): it holds the writer mutex `close_writer` needs, and
+    // waiting behind it would leave every call in flight hanging for as long
+    // as the peer keeps the connection open.
+    inner_ref.failed_flag.store(true, Ordering::Release);
+    inner_ref.failed.notify_waiters();
     #[cfg(feature = "verif-hooks")]
     crate::verif_hooks::hit("wsclient.fail.after_shutdown");
 
@@ -860,6 +885,11 @@ async fn fail_all_pending(inner: &std::sync::Weak<WebSocketClientInner>, err: Re
     for (request_id, sender) in waiters {
         let _ = sender.send(Err(clone_fatal_error_for_waiter(&err, request_id)));
     }
+
+    // Close the writer last: with writes already refused nobody depends on it
+    // any more, and the close handshake on a socket whose peer has stopped
+    // reading can stall for as long as the peer keeps the connection open.
+    let _ = close_writer(&inner_ref).await;
 }
 
 /// Empty the notify slot, dropping the sender *after* the mutex guard is
